@@ -5,7 +5,7 @@ Recs == ndJsonDeserialize(IOEnv.RECS)
 VARIABLE i
 Verdict(r) ==
   [id |-> r.id, input |-> r.input,
-   bad |-> IF r.res = "ok" THEN AstDefects(r.want, r.got, r.wnone, r.gnone)
+   bad |-> IF r.res = "ok" THEN AstDefectsOpt(r.all, r.want, r.got, r.wnone, r.gnone)
            ELSE {<<"sentence_not_parsed", r.res>>}]
 Init == i = 0
 Next == /\ i < Len(Recs)
